@@ -1516,3 +1516,74 @@ silent("c02-silent-product-spelling", ["C02"], EVF,
        "        return product(self.rec(child) for child in expr.children)",
        "        import math\n"
        "        return math.prod(self.rec(child) for child in expr.children)")
+
+# ---------------------------------------------------------------------------
+# C03
+# ---------------------------------------------------------------------------
+fire("c03-revert-rpow-zero", ["C03"], PR,
+     "        # 0**x is not folded: it is 1 for x == 0.\n        if is_zero(other-1):  # base one",
+     "        if is_zero(other):  # base zero\n            return 0\n        elif is_zero(other-1):  # base one",
+     "I/Expression.__rpow__/other==0->0")
+fire("c03-rsub-operand-order", ["C03"], PR,
+     "            return Sum((other, -self))", "            return Sum((-self, other))",
+     "E/Expression.__rsub__/general")
+fire("c03-rsub-forgets-negation", ["C03"], PR,
+     "        else:\n            return -self\n\n    def __mul__",
+     "        else:\n            return self\n\n    def __mul__",
+     "I/Expression.__rsub__")
+fire("c03-mul-zero-returns-self", ["C03"], PR,
+     "        elif is_zero(other):\n            return 0\n        else:\n"
+     "            return Product((self, other))",
+     "        elif is_zero(other):\n            return self\n        else:\n"
+     "            return Product((self, other))",
+     "I/Expression.__mul__")
+fire("c03-rdiv-swapped", ["C03"], PR,
+     "        return quotient(other, self)", "        return quotient(self, other)",
+     "E/Expression.__rtruediv__/general")
+fire("c03-mod-builds-floordiv", ["C03"], PR,
+     "        return Remainder(self, other)", "        return FloorDiv(self, other)",
+     "E/Expression.__mod__/general")
+fire("c03-pow-one-returns-one", ["C03"], PR,
+     "        elif is_zero(other-1):  # exponent one\n            return self",
+     "        elif is_zero(other-1):  # exponent one\n            return 1",
+     "I/Expression.__pow__")
+fire("c03-rshift-reflected-order", ["C03"], PR,
+     "        return RightShift(other, self)", "        return RightShift(self, other)",
+     "E/Expression.__rrshift__/general")
+fire("c03-xor-builds-or", ["C03"], PR,
+     "        return BitwiseXor((self, other))", "        return BitwiseOr((self, other))",
+     "E/Expression.__xor__/general")
+fire("c03-sum-radd-order", ["C03"], PR,
+     "        return Sum((other, *self.children))", "        return Sum((*self.children, other))",
+     "E/Sum.__radd__/general")
+fire("c03-product-splice-order", ["C03"], PR,
+     "            return Product(other.children + self.children)",
+     "            return Product(self.children + other.children)",
+     "E/Product.__rmul__/general:splice")
+fire("c03-lt-returns-comparison", ["C03"], PR,
+     "    def __lt__(self, other) -> NoReturn:\n"
+     "        raise TypeError(\"expressions don't have an order\")",
+     "    def __lt__(self, other):\n        return Comparison(self, \"<\", other)",
+     "P/Expression.__lt__/raises-typeerror")
+fire("c03-node-overrides-ordering", ["C03"], PR,
+     "    name: str\n\n\n@expr_dataclass()\nclass Wildcard(Leaf):",
+     "    name: str\n\n    def __lt__(self, other):\n        return self.name < other.name\n\n\n"
+     "@expr_dataclass()\nclass Wildcard(Leaf):",
+     "S/no-ordering-override/Variable")
+fire("c03-gate-missing", ["C03"], PR,
+     "    def __lshift__(self, other: object) -> LeftShift:\n"
+     "        if not is_valid_operand(other):\n            return NotImplemented\n\n",
+     "    def __lshift__(self, other: object) -> LeftShift:\n",
+     "E/Expression.__lshift__")
+fire("c03-neg-is-identity", ["C03"], PR,
+     "        return -1*self", "        return 1*self", "E/Expression.__neg__")
+fire("c03-ge-constructor-wrong-op", ["C03"], PR,
+     "        return Comparison(self, \">=\", other)", "        return Comparison(self, \">\", other)",
+     "E/Expression.ge")
+fire("c03-add-drops-self-when-other-sum", ["C03"], PR,
+     "                    return Sum((self, *other.children))",
+     "                    return Sum((*other.children, self))",
+     "E/Expression.__add__/general:splice")
+silent("c03-silent-guard-spelling", ["C03"], PR,
+       "        if is_zero(other):  # exponent zero\n            return 1",
+       "        if not is_nonzero(other):  # exponent zero\n            return 1")
